@@ -187,36 +187,17 @@ def run(ctx):
     nvals = 3 if ctx.quick else 8
     for gt in ns.types:
         mx = (model_bounds[gt.index][1] + 7) // 8
-        vals = [G.zero_value(gt.expr), maximal_value(rng, gt.expr)] + [G.gen_value(rng, gt.expr) for _ in range(nvals)]
+        vals = [G.zero_value(gt.expr), E.maximal_value(rng, gt.expr), E.maximal_value(rng, gt.expr)] + [G.gen_value(rng, gt.expr) for _ in range(nvals)]
         if mx <= 48:
             caps = list(range(0, mx + 2))
         else:
             caps = sorted(set([0, 1, 2, 7, 8, mx - 9, mx - 2, mx - 1, mx, mx + 1, mx + 8] + [rng.randint(0, mx) for _ in range(8)]))
         for vi, v in enumerate(vals):
-            for cap in (caps if vi < 2 or mx <= 16 else rng.sample(caps, min(len(caps), 8))):
+            for cap in (caps if vi < 3 or mx <= 16 else rng.sample(caps, min(len(caps), 8))):
                 reqs.append(E.Req(gt, "serbuf", (v, cap)))
     native = [t for t in sess.targets if t.lang != "py"]
     E.run_requests(ctx, sess, drv, "serbuf", reqs, tally, targets=native)
     ctx.sample({"type": reqs[-1].gt.tstr[:200], "request": reqs[-1].target_line()[:200]})
-
-
-def maximal_value(rng, e):
-    """A value of maximal serialized length: full arrays, the largest union option."""
-    k = e[0]
-    if k in "uifb":
-        return G.gen_value(rng, e, oob=False)
-    if k == "v":
-        return None
-    if k in "al":
-        return [maximal_value(rng, e[1]) for _ in range(e[2])]
-    if k == "s":
-        return [maximal_value(rng, f) for f in e[1]]
-    if k == "n":
-        best = max(range(len(e[1])), key=lambda i: R._lens(e[1][i], {})[1])
-        return (best, maximal_value(rng, e[1][best]))
-    if k == "d":
-        return maximal_value(rng, e[2])
-    raise ValueError(e)
 
 
 def replay(ctx, path):
